@@ -60,6 +60,9 @@ type Spec struct {
 	HugeSize  int
 	ShardAt   int
 	RecOpen   bool // also record the very first Open of an empty directory (root node)
+	// Prefix is a fixed set-up history executed before the explored part of every history
+	// (its ops count towards MaxClient/MaxMaint; Depth bounds the explored suffix only).
+	Prefix []string
 
 	// C11: maintenance schedules run on every recovered image.
 	PostDepth int
@@ -80,7 +83,7 @@ func (s *Spec) readKeys() []string {
 func (s *Spec) Keys() []string {
 	seen := map[string]bool{}
 	var out []string
-	for _, op := range s.Client {
+	for _, op := range append(append([]string{}, s.Client...), s.Prefix...) {
 		for _, w := range parseClient(op) {
 			if !seen[w.key] {
 				seen[w.key] = true
